@@ -1,6 +1,6 @@
 From Coq Require Import ZArith NArith.
-From C15 Require Import Model.
+From C15 Require Import Model Proofs.
 Require Extraction.
 Require Import ExtrOcamlBasic.
 (* Z.of_nat / N.of_nat only so that ocaml/zutil.ml (which mentions z, n, positive) links *)
-Extraction "model.ml" ref_sem compile tgt_sem desugar_block mkst Z.of_nat N.of_nat.
+Extraction "model.ml" ref_sem compile tgt_sem accepted desugar_block mkst Z.of_nat N.of_nat.
